@@ -189,33 +189,61 @@ def build_and_run(prop, sites, jobs, report, replay_fn=None, parallel=8):
 
 # ----------------------------------------------------------------------------- native replay (cfg(test) overlay)
 REPLAY_SITES = {
-    'wire': ('crates/anemo', 'src/network/wire.rs', 'wire_native.rs'),
+    # site: (crate dir, package, source file the test module is appended to, test file under /verif/replay, module path of that file)
+    'wire': ('crates/anemo', 'anemo', 'src/network/wire.rs', 'wire_native.rs', 'network::wire'),
+    'cm': ('crates/anemo', 'anemo', 'src/network/connection_manager.rs', 'cm_native.rs', 'network::connection_manager'),
+    'auth': ('crates/anemo-tower', 'anemo-tower', 'src/auth/mod.rs', 'auth_native.rs', 'auth'),
 }
 
 
 def native_replay(prop, site, test_names, env=None, timeout=1500):
-    """run native #[test]s from /verif/replay against a scratch copy of /repo's working tree.
-    -> {test: 'pass'|'fail'|'error'}, log"""
+    """run native #[test]s from /verif/replay against a scratch copy of /repo's working tree (dev profile).
+    -> {test: 'pass'|'fail'|'error'}, log.  A solver counterexample is reported as a violation only if the test that
+    re-runs it on the real build FAILS (the real code really breaks the specification on that input)."""
     name = f'replay-{prop}'
     with locked(name):
         scratch = sync_scratch(name)
-        cdir, src, f = REPLAY_SITES[site]
+        cdir, pkg, src, f, modpath = REPLAY_SITES[site]
         srcpath = os.path.join(scratch, cdir, src)
-        shutil.copy(os.path.join(VERIF, 'replay', f), os.path.join(os.path.dirname(srcpath), f'__verif_replay_{site}.rs'))
+        text, notes = adapt_harness(site, open(os.path.join(VERIF, 'replay', f)).read(), open(srcpath, errors='replace').read())
+        with open(os.path.join(os.path.dirname(srcpath), f'__verif_replay_{site}.rs'), 'w') as fh:
+            fh.write(text)
         with open(srcpath, 'a') as fh:
             fh.write(f'\n#[cfg(test)] #[path = "__verif_replay_{site}.rs"] mod __verif_replay_{site};\n')
         tdir = os.path.join(CACHE, 'native-target')
         res, logs = {}, ''
         for t in test_names:
-            rc, out, wall = run(['cargo', 'test', '--offline', '-p', 'anemo', '--lib', t, '--', '--exact', '--nocapture',
-                                 f'network::wire::__verif_replay_{site}::{t}'] if False else
-                                ['cargo', 'test', '--offline', '-p', 'anemo', '--lib', t], cwd=scratch,
+            rc, out, wall = run(['cargo', 'test', '--offline', '-p', pkg, '--lib', t], cwd=scratch,
                                env=dict(env or {}, CARGO_TARGET_DIR=tdir), timeout=timeout)
             logs += out[-3000:]
-            if f'test network::wire::__verif_replay_{site}::{t} ... ok' in out:
+            if f'test {modpath}::__verif_replay_{site}::{t} ... ok' in out:
                 res[t] = 'pass'
-            elif f'test network::wire::__verif_replay_{site}::{t} ... FAILED' in out:
+            elif f'test {modpath}::__verif_replay_{site}::{t} ... FAILED' in out:
                 res[t] = 'fail'
             else:
                 res[t] = 'error'
         return res, logs
+
+
+def confirm_natively(o, prop, site, test, env, what):
+    """o: a violated mirsym obligation with a solver counterexample; re-run it on the real build.
+    fail = reproduced (stays violated); pass = not reproduced -> inconclusive; error -> stays violated, stated unconfirmed"""
+    if os.environ.get('VERIF_DEV_NO_NATIVE'):
+        return
+    res, logs = native_replay(prop, site, [test], env)
+    verdict = res.get(test, 'error')
+    if isinstance(o.sample, dict):
+        o.sample['native_replay'] = {'test': test, 'env': env, 'result': {'fail': 'reproduced on the real build', 'pass': 'NOT reproduced', 'error': 'test could not be run'}[verdict]}
+    if verdict == 'pass':
+        o.status = 'inconclusive'
+        o.detail = f'solver counterexample ({what}) did not reproduce on the real build (native test {test} passes): encoding or oracle is wrong - ' + o.detail
+    elif verdict == 'fail':
+        o.detail = f'[reproduced natively: {test}] ' + o.detail
+        try:
+            d = json.load(open(o.replay))
+            d['native_replay'] = {'test': test, 'env': env, 'result': 'FAILED on the real build (reproduced)'}
+            json.dump(d, open(o.replay, 'w'), indent=1, default=str)
+        except Exception:
+            pass
+    else:
+        o.detail = f'[native replay could not run: {logs[-300:].strip()}] ' + o.detail
